@@ -17,8 +17,8 @@ from .core import VERIF, REPO, run_unit, UnitRun, Failure, norm, scratch
 from . import registry
 
 KF_PATH = os.path.join(VERIF, 'known_findings.json')
-EVID = os.path.join(VERIF, 'evidence')
-REPLAYS = os.path.join(VERIF, 'replays')
+EVID = os.environ.get('VERIF_EVIDENCE_DIR') or os.path.join(VERIF, 'evidence')
+REPLAYS = os.environ.get('VERIF_REPLAY_DIR') or os.path.join(VERIF, 'replays')
 
 
 def load_known() -> List[dict]:
@@ -82,6 +82,10 @@ def main(argv=None):
     runs: List[UnitRun] = []
     for U in spec['units']:
         runs.append(run_unit(U(), REPO))
+    selftest = None
+    if a.tier == 'thorough' and not os.environ.get('VERIF_NO_SELFTEST'):
+        from .selftest import run_selftest
+        selftest = run_selftest(pid)
     extra = None
     if spec.get('extra'):
         extra = spec['extra'](pid, a.tier, seed, runs)          # e.g. Kani back end, L3 pipeline; returns dict
@@ -182,6 +186,8 @@ def main(argv=None):
     }
     if extra:
         cov.update(extra.get('coverage', {}))
+    if selftest is not None:
+        cov['selftest'] = selftest
     level = spec.get('level', 'proof')
     if not counted or len(discharged) == 0:
         # schema wants >= 1; an inconclusive run still writes what it has
@@ -189,6 +195,9 @@ def main(argv=None):
     write_evidence(pid, a.tier, seed, level, cov, spec.get('assumptions', []), time.time() - t0, nviol)
     if rc == 0 and len(discharged) != len(counted):
         print(f'INCONCLUSIVE property={pid}: {len(counted) - len(discharged)} obligations undecided')
+        rc = 2
+    if rc == 0 and selftest and selftest.get('undetected'):
+        print(f"INCONCLUSIVE property={pid}: self-test: seeded change(s) {selftest['undetected']} are no longer detected (the checker, not the code, is at fault)")
         rc = 2
     if rc == 0:
         print(f'OK property={pid} tier={a.tier} obligations={len(counted)} discharged={len(discharged)} '
